@@ -1038,31 +1038,30 @@ pub fn rustc_families(sim: &mut Sim) -> Vec<(String, Vec<(String, Program)>)> {
         );
         fams.push((name.to_string(), vec![("pull".to_string(), pull), ("push_tee".to_string(), push_tee), ("pull_union".to_string(), pull_union), ("push_identity".to_string(), push_identity)]));
     }
-    // two `#{g} mut` holders of one singleton: each in a subgraph of its own (behind a handoff())
-    // vs both in the subgraph of the tee that feeds them
+    // a `#name` reader of a `handoff()` buffer whose output is merged with the buffer's pipe consumer
+    // by a union (the reader then shares the consumer's subgraph, where the buffer's `drain(..)` is a
+    // live mutable borrow) vs. the same program with a handoff() between reader and union
     let f = sim.choose("f", 0, cl::N_REF as u64 - 1) as u8;
     let refs = |iso: bool| -> Program {
         let mut nodes = vec![
             Node { op: Op::Src { chan: 0 }, ins: vec![] },
-            Node { op: Op::Fold { p: Pers::Tick, f: 0 }, ins: vec![s(0, 0)] },
-            Node { op: Op::HoffSingleton, ins: vec![s(1, 0)] },
+            Node { op: Op::HoffVec, ins: vec![s(0, 0)] },
             Node { op: Op::Src { chan: 1 }, ins: vec![] },
-            Node { op: Op::Tee, ins: vec![s(3, 0)] },
+            Node { op: Op::HoffVec, ins: vec![s(2, 0)] },
+            Node { op: Op::RefMap { target: 1, group: 0, write: false, f }, ins: vec![s(3, 0)] },
         ];
-        for g in 0..2u32 {
-            let mut from = s(4, g as usize);
-            if iso {
-                nodes.push(Node { op: Op::HoffVec, ins: vec![from] });
-                from = s(nodes.len() - 1, 0);
-            }
-            nodes.push(Node { op: Op::RefMap { target: 2, group: g, write: true, f }, ins: vec![from] });
-            let r = nodes.len() - 1;
-            nodes.push(Node { op: Op::Sink { id: g as usize }, ins: vec![s(r, 0)] });
+        let mut r = 4;
+        if iso {
+            nodes.push(Node { op: Op::HoffVec, ins: vec![s(r, 0)] });
+            r = nodes.len() - 1;
         }
-        let mut p = mk(nodes, 2, 2, "rustc_ref_mut_holders");
+        nodes.push(Node { op: Op::Union, ins: vec![s(1, 0), s(r, 0)] });
+        let u = nodes.len() - 1;
+        nodes.push(Node { op: Op::Sink { id: 0 }, ins: vec![s(u, 0)] });
+        let mut p = mk(nodes, 2, 1, "rustc_ref_holder_with_vec_consumer");
         p.n_refs = 1;
         p
     };
-    fams.push(("ref_mut_holders".to_string(), vec![("separate_subgraphs".to_string(), refs(true)), ("one_subgraph".to_string(), refs(false))]));
+    fams.push(("ref_holder_with_vec_consumer".to_string(), vec![("separate_subgraphs".to_string(), refs(true)), ("one_subgraph".to_string(), refs(false))]));
     fams
 }
